@@ -27,8 +27,11 @@ REGISTRATION = {
     "note": COMMON_NOTE + "Modelled, not verified: templates outside the executed subset (variables, assignments, "
             "printf/slice/len, continue, with, pipelines; e.g. alpaca, gemma-instruct, llama2-chat) stay a measured "
             "cost vector + template-agnostic L2; tokenizers are the two harness functions; mllama.Preprocess is a "
-            "success flag; the cgo llamarunner inputs() (same lookup loop) is not executed; assumption: user text "
-            "contains no literal `[img-`. Variant bits (F4, legacy loop, deleteNode) are probed on the tree under test.",
+            "success flag; the cgo llamarunner inputs() (same lookup loop) is not executed. Message text that spells "
+            "`[img-N]` is finding F5 (known; theorems about the runner's scan are `_partial` with guard cleanPieces). "
+            "\"Longest run that fits\" holds for every input only as \"first over-budget candidate stops the walk\" "
+            "(retained_first_failure / cut_is_spec); longest-fitting needs a monotone measured total (proved for the "
+            "in-place template with the byte tokenizer, witness first_failure_not_longest_nonmonotone otherwise). Variant bits (F4, legacy loop, deleteNode) are probed on the tree under test.",
 }
 
 MODULES = ["OllamaVerif.Properties.C19", "OllamaVerif.Tie.C19"]
@@ -83,9 +86,12 @@ THEOREMS = [
     "OllamaVerif.C19.prompt_in_order_header",
     "OllamaVerif.C19.prompt_in_order_legacy",
     "OllamaVerif.Prompt.scanTags_renderPieces",
-    "OllamaVerif.C19.runner_scan_is_tags",
+    "OllamaVerif.C19.runner_scan_is_tags_partial",
+    "OllamaVerif.C19.F5_literal_tag_duplicates_image",
+    "OllamaVerif.C19.F5_literal_tag_invalid_index",
+    "OllamaVerif.C19.first_failure_not_longest_nonmonotone",
     "OllamaVerif.C19.inplace_exact",
-    "OllamaVerif.C19.prompt_tags_inplace",
+    "OllamaVerif.C19.prompt_tags_inplace_partial",
     "OllamaVerif.C19.total_antitone_inplace_bytes",
     "OllamaVerif.C19.retained_longest_fitting_inplace_bytes",
     "OllamaVerif.Prompt.fromOpenAI_images",
@@ -212,7 +218,11 @@ def run(ctx):
     ctx.assumptions += [
         "templates inside the executed subset are run by the model on the tree the real Parse built; other templates "
         "enter as the cost vector measured on the real code",
-        "user text contains no literal `[img-` (cases violating it are generated for L1 but skipped by the tag-count monitor)",
+        "message text that spells `[img-N]` is evaluated by the monitors and reported as known finding F5-literal-image-tag "
+        "(signature: the failure is exactly what the typed tag explains); theorems about the runner's scan carry the guard cleanPieces",
+        "`retained = longest run that fits` is proved for every cost only as first-failure (cut_is_spec); the longest-fitting "
+        "reading needs a measured total that is monotone in the run: proved for the in-place template + byte tokenizer, not guaranteed "
+        "by real tokenizers / collate (spec_nonmonotone_cost counts such generated conversations)",
         "image token accounting (768 per image, 1 for mllama) is taken from the code, not from the runner",
     ]
     if ctx.thorough:
